@@ -227,7 +227,7 @@ class C14(Prop):
 
     def signature(self, case: dict, obs: Any, why: str) -> str:
         if "(step sibling of a nested pause)" in why:
-            return "site:run_superstep_async/nested-pause-drops-step-siblings"      # one mechanism (known finding C14-F2), whatever the program
+            return "site:run_superstep_async/nested-pause-drops-step-siblings"      # the mechanism repaired by fix 13cfc67 (C14-X1): reported again if it returns
         return "case:" + canonical_hash({"program": case["program"], "values": case["values"]})
 
     def sample(self, case: dict, obs: Any) -> Any:
